@@ -238,6 +238,9 @@ type e2eCase struct {
 	Sched   []string
 	Load    int
 	Query   int
+	// GenQ, if set, replaces the fixed query shape by a generated query over the fields k, v (checked against the
+	// same reference evaluator as in C05, but through the real binary, transport and client-chosen table regex)
+	GenQ *gen.Q
 }
 
 var lineCounts = []int{0, 1, 50, 100, 101, 250, 1000, 5000}
@@ -300,6 +303,11 @@ func genE2E(t *rapid.T) e2eCase {
 	}
 	c.Load = rapid.SampledFrom([]int{0, 0, 0, 2, 4}).Draw(t, "load")
 	c.Query = rapid.IntRange(0, 2).Draw(t, "query")
+	if c.Groups <= 40 && rapid.IntRange(0, 2).Draw(t, "genq") == 0 {
+		q := gen.MaprQuery(table, false).Draw(t, "generated-query")
+		q.HasIntvl, q.Interval = true, 1
+		c.GenQ = &q
+	}
 	return c
 }
 
@@ -440,6 +448,9 @@ func runE2EWithin(c e2eCase, deadline time.Duration) lib.Outcome {
 		}
 	}
 	q := baseQuery(c.Query)
+	if c.GenQ != nil {
+		q = *c.GenQ
+	}
 	outfile := filepath.Join(cdir, "out.csv")
 	q.HasOutfile, q.Outfile = true, outfile
 	qs := gen.Canonical(q)
@@ -501,6 +512,9 @@ func runE2EWithin(c e2eCase, deadline time.Duration) lib.Outcome {
 	}
 	if len(c.Sched) > 0 {
 		o.Classes = append(o.Classes, "hook-delays")
+	}
+	if c.GenQ != nil {
+		o.Classes = append(o.Classes, "generated-query")
 	}
 	if c.Load > 0 {
 		o.Classes = append(o.Classes, "cpu-load")
@@ -660,6 +674,28 @@ func sampleE2E(c e2eCase) interface{} { return c }
 
 func TestC06E2E(t *testing.T) {
 	lib.Run(t, lib.Spec[e2eCase]{Prop: "C06", Check: "e2e",
-		Rule: "real dmap binary, serverless or against 1..8 (thorough: ..24) freshly started server processes; 1..12 (sometimes 99..130) files per server with 0..5000 lines (sometimes 3000..12000 groups for a large result), MaxConcurrentCats in {1,2,8,200}; one glob command or one command per file; 0-2 hook-placed delays (aggregator close/requeue, registration, limiter, merge, command loop) and 0/2/4 CPU hogs per shard; 3 query shapes. Oracle: exit 0 within 120 s and the CSV outfile equals the central evaluation by the reference model over all lines of all files. clean-schedule-space: hook await actions remove the known defect (server cannot know that more files / commands follow), every failure is a violation; free-schedule-space: a failure is accepted only when the hook trace shows that defect's signature. Non-trivial = >=2 files on a server or >=2 servers",
+		Rule: "real dmap binary, serverless or against 1..8 (thorough: ..24) freshly started server processes; 1..12 (sometimes 99..130) files per server with 0..5000 lines (sometimes 3000..12000 groups for a large result), MaxConcurrentCats in {1,2,8,200}; one glob command or one command per file; 0-2 hook-placed delays (aggregator close/requeue, registration, limiter, merge, command loop) and 0/2/4 CPU hogs per shard; 3 fixed query shapes or a grammar-generated query (select/where/set/group/order/limit as in C05). Oracle: exit 0 within 120 s and the CSV outfile equals the central evaluation by the reference model over all lines of all files. clean-schedule-space: hook await actions remove the known defect (server cannot know that more files / commands follow), every failure is a violation; free-schedule-space: a failure is accepted only when the hook trace shows that defect's signature. Non-trivial = >=2 files on a server or >=2 servers",
 		Gen: genE2E, Eval: evalE2E, SampleOf: sampleE2E})
+}
+
+// TestC06Witness re-checks the open known finding on a fixed input (dmap over 8 small files given as 8 commands),
+// so that its KNOWN-FINDING line is printed while it stands and disappears by itself once it is repaired.
+func TestC06Witness(t *testing.T) {
+	rec := lib.NewRec("C06", "witness", "fixed input: dmap serverless over 8 files of 50 lines given as one command per file, default limits, up to 12 attempts; re-checks the known finding aggregator-ends-early")
+	defer rec.Flush()
+	c := e2eCase{Files: [][]int{{50, 50, 50, 50, 50, 50, 50, 50}}, Groups: 5, Cats: 2}
+	for i := 0; i < 12; i++ {
+		o := runE2E(c)
+		rec.Case(fmt.Sprintf("witness-%d", i), true, "witness-run")
+		if o.Fail == "" {
+			continue
+		}
+		if o.KnownKey == "" {
+			path := rec.Violation(c, "the witness input fails without the known finding's trace signature: "+o.Fail, o.Expected, o.Observed, o.Trace)
+			t.Fatalf("property C06: %s\nreplay=%s", o.Fail, path)
+		}
+		lib.Witness(t, rec, "C06", "aggregator-ends-early", c, func() lib.Outcome { return o })
+		return
+	}
+	rec.Class("witness-passes:aggregator-ends-early", 1)
 }
